@@ -97,6 +97,31 @@ def check_tree(ctx, out, spec, tag, tree=None, typed=False):
                          impl=v, spec=rec["spec"][k], model=rec["model"][k], finding=None)
             elif v != rec["model"][k]:
                 out.disagree(dict(case, accessor=k), f"{k}() of node {rec['id']} = {v!r}, model {rec['model'][k]!r}")
+    if typed:
+        # the DEFAULT (kind-aware) sibling queries of a typed node must be mutually consistent: the index is the node's
+        # position (by identity) in get_siblings(add_self=True), first/last/prev/next/is_first/is_last follow from it
+        for nid, n in nodes.items():
+            out.dist["typed_default_consistency"] += 1
+            try:
+                sibs = n.get_siblings(add_self=True)
+                pos = [k for k, x in enumerate(sibs) if x is n]
+                idx = n.get_index()
+                got = dict(index=idx, first=n.first_sibling(), last=n.last_sibling(), prev=n.prev_sibling(), next=n.next_sibling(),
+                           is_first=n.is_first_sibling(), is_last=n.is_last_sibling(), same_kind=all(x.kind == n.kind for x in sibs),
+                           in_parent=[x for x in (n.parent or tree.system_root).children if x.kind == n.kind] == sibs)
+            except Exception as e:  # noqa
+                out.fail(dict(kind="typed-consistency", spec=spec, node=nid, typed=True), f"default sibling queries of node {nid} raised {e!r}")
+                continue
+            if len(pos) != 1:
+                out.fail(dict(kind="typed-consistency", spec=spec, node=nid, typed=True), f"node {nid} occurs {len(pos)} times in get_siblings(add_self=True)")
+                continue
+            p = pos[0]
+            want = dict(index=p, first=sibs[0], last=sibs[-1], prev=sibs[p - 1] if p > 0 else None, next=sibs[p + 1] if p + 1 < len(sibs) else None,
+                        is_first=p == 0, is_last=p == len(sibs) - 1, same_kind=True, in_parent=True)
+            for k in want:
+                if (got[k] is not want[k]) if k in ("first", "last", "prev", "next") else (got[k] != want[k]):
+                    out.fail(dict(kind="typed-consistency", spec=spec, node=nid, typed=True, accessor=k),
+                             f"typed node {nid}: default {k} = {got[k]!r} is inconsistent with its position {p} in get_siblings(add_self=True) (expected {want[k]!r})")
     for a, b, model, sp in resp["pairs"]:
         impl = impl_pair(nodes[a], nodes[b], ser)
         out.count((tag, repr(spec), a, b), nontriv)
